@@ -467,6 +467,37 @@ def selfcheck():
     s = z3.Solver()
     s.add(x > 0, x < 0)
     assert s.check() == z3.unsat
+    # ---- the verifier on obligations with known verdicts (a pass that cannot fail proves nothing)
+    from . import engine as E, smt, sym as S, loops as L, transc as T
+
+    def thunk(run):
+        x = S.fresh_real("x")
+        y = x + 1 if x > 0 else -x          # forks on the symbolic condition
+        run.oblige("true-post", y >= 0, kind="post")
+        run.oblige("false-post", y > 1, kind="post")
+        a, b = S.fresh_real("a"), S.fresh_real("b")
+        run.oblige("identity", L.scalar_eq((a + b) * (a + b), a * a + 2 * a * b + b * b), kind="post", view="value")
+        run.oblige("non-identity", L.scalar_eq((a + b) * (a + b), a * a + b * b), kind="post", view="value")
+        run.oblige("log-exp", L.scalar_eq(T.log(T.exp(a)), a), kind="post", view="value")
+        run.cover("reachable")
+        run.assume(x > 0)
+        run.assume(x < 0)
+        run.oblige("dead", S.SBool(True), kind="cover", expect="sat")
+    obs = [o for r in E.Explorer(props={"self"}).explore(thunk) for o in r.obligations]
+    res = smt.discharge(obs, timeout_s=10, jobs=2)
+    got = {}
+    for o, r in zip(obs, res):
+        got.setdefault(o.name.split(":")[-1], set()).add(r["result"])
+    want = {"true-post": {"unsat"}, "false-post": {"sat"}, "identity": {"unsat"}, "non-identity": {"sat"}, "log-exp": {"unsat"},
+            "reachable": {"sat"}, "dead": {"unsat"}}
+    bad = {k: (sorted(got.get(k, [])), sorted(v)) for k, v in want.items() if not (got.get(k) and (got[k] <= v if k != "false-post" else "sat" in got[k]))}
+    print("verifier self-test: %d obligations, %s" % (len(obs), "verdicts as expected" if not bad else "UNEXPECTED %s" % bad))
+    if bad:
+        return 3
+    c5 = subprocess.run(["/usr/bin/cvc5", "--version"], capture_output=True, text=True)
+    print((c5.stdout or "cvc5 missing").splitlines()[0])
+    ln = shutil.which("lean")
+    print("lean:", ln or "missing (the thorough tier of C02-C07, C20 needs it)")
     p = subprocess.run([NATIVE_PY, "-c", "import bldfm, numpy; print('bldfm', bldfm.__file__, 'numpy', numpy.__version__)"],
                        capture_output=True, text=True, cwd=_work())
     print(p.stdout.strip(), p.stderr.strip()[-300:])
